@@ -100,7 +100,7 @@ func TestSim(t *testing.T) {
 	// (not in the race build: the race runtime reports each pair of stacks only
 	// once per process, a warm-up run would swallow the first report)
 	if job.Mode != "info" && !RaceBuild {
-		runGuarded(t, p, p.Gen(7, -1, job.Tier), NewSeedTape(7))
+		runGuardedGen(t, p, func() json.RawMessage { return p.Gen(7, -1, job.Tier) }, NewSeedTape(7))
 	}
 	start := time.Now()
 	emit := func(rec *Record, keep bool) {
@@ -125,7 +125,11 @@ func TestSim(t *testing.T) {
 	}
 	switch job.Mode {
 	case "info":
-		line, _ := json.Marshal(map[string]interface{}{"prop": job.Prop, "enum_size": p.EnumSize(job.Tier), "race_build": RaceBuild})
+		// (the enumeration tables are built by executing the pool requests once:
+		// under the watchdog, like everything else that calls into the library)
+		size := 0
+		runGuardedGen(t, infoProp{}, func() json.RawMessage { size = p.EnumSize(job.Tier); return nil }, nil)
+		line, _ := json.Marshal(map[string]interface{}{"prop": job.Prop, "enum_size": size, "race_build": RaceBuild})
 		wr.Write(line)
 		wr.WriteByte('\n')
 	case "shrinklist":
@@ -168,22 +172,22 @@ func TestSim(t *testing.T) {
 			if cursor != nil {
 				cursor.WriteAt([]byte(fmt.Sprintf("%020d\n", idx)), 0)
 			}
-			var scn json.RawMessage
 			enum := -1
 			var tape *Tape
+			var gen func() json.RawMessage
 			if job.Mode == "enum" {
 				if int(idx) >= p.EnumSize(job.Tier) {
 					break
 				}
 				enum = int(idx)
-				scn = p.Gen(0, enum, job.Tier)
+				gen = func() json.RawMessage { return p.Gen(0, enum, job.Tier) }
 				tape = NewSeedTape(uint64(enum))
 			} else {
-				scn = p.Gen(idx, -1, job.Tier)
+				gen = func() json.RawMessage { return p.Gen(idx, -1, job.Tier) }
 				tape = NewSeedTape(idx)
 			}
 			t0 := time.Now()
-			o := runGuarded(t, p, scn, tape)
+			o, scn := runGuardedGen(t, p, gen, tape)
 			rec := &Record{Prop: job.Prop, Seed: idx, Enum: enum, Scenario: scn, Outcome: o, WallMs: float64(time.Since(t0).Microseconds()) / 1000}
 			sum.Evaluations++
 			if job.Hashes {
@@ -233,6 +237,14 @@ func TestSim(t *testing.T) {
 // runGuarded runs one scenario with a real-time watchdog and converts escaped
 // panics of the harness itself into infrastructure errors.
 func runGuarded(t *testing.T, p Prop, scn json.RawMessage, tape *Tape) (o *Outcome) {
+	o, _ = runGuardedGen(t, p, func() json.RawMessage { return scn }, tape)
+	return o
+}
+
+// runGuardedGen also puts the scenario generation under the watchdog: generators
+// execute requests against the library (dry runs), and a library deadlock that
+// needs no particular schedule would otherwise hang there.
+func runGuardedGen(t *testing.T, p Prop, gen func() json.RawMessage, tape *Tape) (o *Outcome, scn json.RawMessage) {
 	// No garbage collection while a run is in progress: GC work preempts
 	// goroutines and can reorder the ones woken within one scheduler step.
 	nRuns++
@@ -268,7 +280,8 @@ func runGuarded(t *testing.T, p Prop, scn json.RawMessage, tape *Tape) (o *Outco
 			o = &Outcome{Infra: fmt.Sprintf("harness panic: %v", r)}
 		}
 	}()
-	return p.Run(t, scn, tape)
+	scn = gen()
+	return p.Run(t, scn, tape), scn
 }
 
 func hasClass(o *Outcome, class string) bool {
@@ -389,3 +402,12 @@ func raceReported(o *Outcome) bool {
 	}
 	return false
 }
+
+// infoProp is a no-op property used to run a function under the watchdog.
+type infoProp struct{}
+
+func (infoProp) ID() string                                    { return "info" }
+func (infoProp) EnumSize(string) int                           { return 0 }
+func (infoProp) Gen(uint64, int, string) json.RawMessage       { return nil }
+func (infoProp) Run(TestingT, json.RawMessage, *Tape) *Outcome { return &Outcome{} }
+func (infoProp) Shrink(json.RawMessage) []json.RawMessage      { return nil }
